@@ -1140,6 +1140,20 @@ impl Sut for Ns {
                 format!("rejected-unexpectedly:{c}")
             }
         };
+        // a call that returned an error must leave the catalog as it was, whatever the model expected of it
+        if let (Err((_, msg)), false, false) = (&r, fold_generic, generic.is_empty()) {
+            fold_generic = true;
+            let key = match op {
+                Op::CreateEmpty(_) => "failed-create_empty_table-leaves-reserved-directory".to_string(),
+                _ => format!("failed-op-changed-catalog/{}/{}", op.kind(), shape),
+            };
+            violations.push(Violation::new(
+                "op-class",
+                &key,
+                format!("[{} mode] after {:?}: {} {:?} returned an error ({}) but the catalog changed: {}", mode.name(), st.hist, op.kind(), op.id(), short(msg), generic.join(" | ")),
+                case.clone(),
+            ));
+        }
         let mut seen_keys = BTreeSet::new();
         for (key, prune, what) in classified {
             if fold_generic && key.contains("/observe/") {
